@@ -224,6 +224,17 @@ add("C11", "exploration",
     "cutoff) times the values involved. Averaged parameters with partly unset sources are not asserted.",
     "DESIGN.md section 4, C11")
 
+add("C17", "exploration",
+    "schema-driven generation, round trip through all write styles, independent YAML parse",
+    "Every setting of the configured App is enumerated with up to 8 (thorough 40) schema-admitted values in all three styles; "
+    "Hypothesis explores assignment histories (validity defined by the setting's own schema on an independent copy), multi-setting "
+    "documents written by armi and parsed independently with ruamel, hand-written files with invalid values and unknown keys, and "
+    "modified/duplicate/deepcopy/pickle copies (about 10 000 evaluations quick, 300 000 thorough). Old names are enumerated completely.",
+    "Validity is each setting's own voluptuous schema, cross-checked by a small model of the Coerce/Range/In/Any subset and of the "
+    "nested XS, cycles and tight-coupling schemas; voluptuous, ruamel.yaml and float repr are trusted; strings exclude surrogates and "
+    "control characters; userPlugins is never a non-empty list when a file is read.",
+    "DESIGN.md section 4, C17")
+
 NOT_BUILT_REASON = "check not built yet in this round (planned in DESIGN.md section 4); not claimed"
 
 
